@@ -464,11 +464,24 @@ void RouterSession::run() {
         bool edited = false;
         std::string e2;
         if (!useTransactions && o != "process" && o != "recover") armFaults(op);
+        // The generators keep the boxes of the shapes interior-disjoint (the domain of the statements).  A plan can still ask for an
+        // overlap when an earlier edit of it was refused by one of the argument guards below, or was cut out by the shrinker: such an
+        // edit is not carried out either, so that every plan that can be written down stays inside the domain.
+        auto wouldOverlap = [&](int self, const Poly &np) {
+            RectB nb = bbox(np);
+            for (auto &sk : shapes) if (sk.second.alive && sk.first != self) {
+                RectB ob = bbox(sk.second.poly);
+                double ox = std::min(nb.x + nb.w, ob.x + ob.w) - std::max(nb.x, ob.x), oy = std::min(nb.y + nb.h, ob.y + ob.h) - std::max(nb.y, ob.y);
+                if (ox > 1e-9 && oy > 1e-9) { probe("router.edit-refused-shapes-would-overlap"); return true; }
+            }
+            return false;
+        };
         if (o == "addShape") {
             int k = (int)op["id"].i();
             if (shapes.count(k) && shapes[k].alive) continue;
             Sh sh; sh.poly = polyFromJson(op["poly"]); sh.alive = true; sh.isRect = op.boolean("rect", false);
             if (sh.poly.size() < 3) continue;
+            if (wouldOverlap(k, sh.poly)) continue;
             e2 = guardedCall(this, [&] { Polygon pg = toAvoid(sh.poly); sh.ref = new ShapeRef(router, pg); addPins(sh, op); });
             shapes[k] = sh; edited = true; addedThisTxn.insert(k);
         } else if (o == "moveShape") {
@@ -476,6 +489,7 @@ void RouterSession::run() {
             auto it = shapes.find(k);
             if (it == shapes.end() || !it->second.alive) continue;
             double dx = op.num("dx", 0), dy = op.num("dy", 0);
+            { Poly moved = it->second.poly; for (auto &q : moved) { q.x += dx; q.y += dy; } if ((dx != 0 || dy != 0) && wouldOverlap(k, moved)) continue; }
             for (auto &q : it->second.poly) { q.x += dx; q.y += dy; }
             if (dx == 0 && dy == 0 && pendingEdits == 0) zeroMoveOnly = true; else if (dx != 0 || dy != 0) zeroMoveOnly = false;
             e2 = guardedCall(this, [&] { router->moveShape(it->second.ref, dx, dy); });
@@ -491,6 +505,7 @@ void RouterSession::run() {
                 for (auto &pm : it->second.pins) if (!pm.prop && ((pm.xo > 0 && pm.xo > nb.w - 1) || (pm.yo > 0 && pm.yo > nb.h - 1))) outside = true;
                 if (outside) continue;
                 if (!reshapeKeepsPinsApart(it->second, np)) continue;
+                if (wouldOverlap(k, np)) continue;
             }
             Poly old = it->second.poly;
             it->second.poly = np; it->second.isRect = op.boolean("rect", false);
